@@ -1877,6 +1877,7 @@ int main(int argc, char** argv) {
   env_setup();
   grf::remove_stale("c11");
   grf::remove_stale("c11t");
+  grf::remove_stale("c11", ".cpp"); // compile-probe sources
   const std::vector<int> ALLE = {0, 1, 2, 3}, ALLT = {1, 2, 3, 4};
   std::vector<Layout> layouts;
   layouts.push_back({"FileGraph fromFile v1/v2", FN4(filegraph_run), ALLE, {1}});
@@ -1906,5 +1907,6 @@ int main(int argc, char** argv) {
   // workers killed at a deadline cannot remove their scratch files
   grf::remove_stale("c11");
   grf::remove_stale("c11t");
+  grf::remove_stale("c11", ".cpp");
   return rc;
 }
